@@ -15,6 +15,7 @@ from contracts.assumed_aio import _M, UserFn
 
 class NameId:
     """a NonStrictName known through the identity of its normalised component list"""
+    opaque_value = True          # stands for an unknown value of a library type: foreign contracts do not know it
 
     def __init__(self, kid):
         self.kid = kid
